@@ -165,8 +165,32 @@ def key_certainly_present(ctx, pt, ins):
 
 
 class SortEvent:
-    def __init__(self, fn, stmt, target, src, deep=False):
-        self.fn, self.stmt, self.target, self.src, self.deep = fn, stmt, target, src, deep
+    def __init__(self, fn, stmt, target, src, deep=False, inplace=False):
+        self.fn, self.stmt, self.target, self.src, self.deep, self.inplace = fn, stmt, target, src, deep, inplace
+
+
+def inplace_rekey(loop):
+    """`for k in sorted(D): D[k] = D.pop(k)` - every key is moved to the end in ascending order: the same object ends up
+    with its keys sorted.  Returns the expression D, else None."""
+    if not (isinstance(loop, ast.For) and isinstance(loop.target, ast.Name) and not loop.orelse and len(loop.body) == 1):
+        return None
+    it = loop.iter
+    if not (isinstance(it, ast.Call) and isinstance(it.func, ast.Name) and it.func.id == "sorted" and len(it.args) == 1 and not it.keywords):
+        return None
+    d = it.args[0]
+    while isinstance(d, ast.Call) and ((isinstance(d.func, ast.Name) and d.func.id in ("list", "tuple") and len(d.args) == 1) or
+                                        (isinstance(d.func, ast.Attribute) and d.func.attr == "keys" and not d.args)):
+        d = d.args[0] if isinstance(d.func, ast.Name) else d.func.value
+    st = loop.body[0]
+    k = loop.target.id
+    if not (isinstance(st, ast.Assign) and len(st.targets) == 1 and isinstance(st.targets[0], ast.Subscript) and norm(st.targets[0].value) == norm(d)
+            and isinstance(st.targets[0].slice, ast.Name) and st.targets[0].slice.id == k):
+        return None
+    v = st.value
+    if isinstance(v, ast.Call) and isinstance(v.func, ast.Attribute) and v.func.attr == "pop" and norm(v.func.value) == norm(d) and len(v.args) == 1 \
+            and isinstance(v.args[0], ast.Name) and v.args[0].id == k:
+        return d
+    return None
 
 
 def sort_events(ctx, pt, fn):
@@ -176,7 +200,57 @@ def sort_events(ctx, pt, fn):
             info = sorted_copy_info(ctx.res, n.value, fn, fn.module)
             if info is not None:
                 out.append(SortEvent(fn, n, n.targets[0], info[0], info[1]))
+        elif isinstance(n, ast.For):
+            d = inplace_rekey(n)
+            if d is not None:
+                out.append(SortEvent(fn, n, None, d, False, inplace=True))
     return out
+
+
+def _within_stmt(ctx, node, outer):
+    p = node
+    while p is not None:
+        if p is outer:
+            return True
+        p = ctx.prog.parent.get(p)
+    return False
+
+
+def same_attribute_alias(ctx, pt, ev, path, objs, all_ins):
+    """In-place re-keying of `self.attr` (or a local bound to it) orders the object at `path` iff, for every instance, that
+    object IS the value of the attribute: every object at the path was put there by `X[key] = self.attr` in the same class
+    family and the attribute is bound exactly once per class.  Returns True / None (not established)."""
+    d = ev.src
+    if isinstance(d, ast.Name):
+        vals = [p_ for w, p_ in ctx.res.bindings(ev.fn).get(d.id, []) if w == "value"]
+        if len(vals) != 1:
+            return None
+        d = vals[0]
+    if not (isinstance(d, ast.Attribute) and isinstance(d.value, ast.Name) and d.value.id == ev.fn.self_name):
+        return None
+    attr = d.attr
+    src_objs = pt.pts(d, ev.fn)
+    if not objs or not (set(objs) <= set(src_objs)):
+        return None
+    # how did each object get to the path?
+    last_key = path[-1]
+    stores = [i for (i, o) in all_ins if i.how == "store" and (const_str(i.key) if i.key is not None else None) == last_key and (pt.pts(i.value, i.fn) & set(objs))]
+    if not stores:
+        return None
+    for i in stores:
+        v = i.value
+        if not (isinstance(v, ast.Attribute) and isinstance(v.value, ast.Name) and i.fn.self_name and v.value.id == i.fn.self_name and v.attr == attr):
+            return None
+    # one binding of the attribute per class
+    for c in ctx.prog.classes.values():
+        n_st = 0
+        for m in c.methods.values():
+            for x in own_nodes(m.node):
+                if isinstance(x, ast.Assign):
+                    n_st += sum(1 for t in x.targets if isinstance(t, ast.Attribute) and t.attr == attr and isinstance(t.value, ast.Name) and t.value.id == m.self_name)
+        if n_st > 1:
+            return None
+    return True
 
 
 def is_sorted_value(ctx, pt, expr, fn, at_node, depth=0):
@@ -291,7 +365,18 @@ def canonical_order(ctx, pt, site):
                         break
         verdict = None
         reasons = []
+        open_q = []
         for ev in cands:
+            if ev.inplace:
+                touched = pt.pts(ev.src, ev.fn)
+                unordered_objs = set()
+                for i, why in unordered:
+                    if _within_stmt(ctx, i.node, ev.stmt):
+                        continue
+                    unordered_objs |= (pt.pts(i.base, i.fn) & objs)
+                if unordered_objs - touched:
+                    reasons.append("%s: orders %s in place, which is not (always) the dictionary that is dumped" % (norm(ev.stmt).split("\n")[0][:60], norm(ev.src)))
+                    continue
             evp = p
             if ev.deep and not (pt.pts(ev.src, ev.fn) & objs):
                 evp = next((p[:pre] for pre in range(len(p)) if pt.pts(ev.src, ev.fn) & paths.get(p[:pre], set())), p)
@@ -300,8 +385,22 @@ def canonical_order(ctx, pt, site):
             if ok:
                 verdict = (ev, why)
                 break
-            reasons.append("%s: %s" % (norm(ev.stmt)[:70], why))
-        example = unordered[0][0]
+            if ok is None:
+                open_q.append(why)
+            reasons.append("%s: %s" % (norm(ev.stmt).split("\n")[0][:70], why))
+        example = ([u for u in unordered if not any(e.inplace and _within_stmt(ctx, u[0].node, e.stmt) for e in events)] or unordered)[0][0]
+        # an in-place re-keying orders only the objects it is applied to: any other dictionary that can sit at this path
+        # needs its own reason to be in key order
+        inpl = [e for e in cands if e.inplace]
+        if inpl:
+            touched = set()
+            for e in inpl:
+                touched |= pt.pts(e.src, e.fn)
+            for o in sorted(objs - touched, key=lambda x: x.where()):
+                nob += literal_order(ctx, pt, o, label, ins_here, site)
+        if not verdict and open_q:
+            ctx.undecided("C06.1", fn, "dump via %s: dictionary '%s': %s" % (how, label, open_q[0]), norm(call) + " :: " + label)
+            continue
         if verdict:
             ctx.holds("C06.1", fn, "dump via %s: dictionary '%s' (%d insertion site(s), e.g. %s at %s line %s) is re-keyed by %s after its last insertion on every path to the dump" % (
                 how, label, len(unordered), norm(example.node)[:60], example.fn.qualname, example.node.lineno, norm(verdict[0].stmt)[:80]),
@@ -334,8 +433,15 @@ def check_sort_event(ctx, pt, site, ev, path, objs, all_ins, helpers, kp, nested
         return not ok
 
     ins_p = [i for (i, o) in all_ins if (o & objs)]
+    if ev.inplace:
+        ins_p = [i for i in ins_p if not _within_stmt(ctx, i.node, ev.stmt)]
+        if not path:
+            return None, "in-place re-keying of the top-level dictionary is not modelled"
+        al = same_attribute_alias(ctx, pt, ev, path, objs, all_ins)
+        if not al:
+            return None, "in-place re-keying of `%s`: that it is the object stored under '%s' for every instance is not established" % (norm(ev.src), "/".join(path))
     # the re-keyed value must be stored back where the dump will find it
-    if path:
+    if path and not ev.inplace:
         t = ev.target
         if not (isinstance(t, ast.Subscript) and const_str(t.slice) == last_key):
             return False, "result is not stored back under key %r" % last_key
@@ -402,7 +508,7 @@ def check_sort_event(ctx, pt, site, ev, path, objs, all_ins, helpers, kp, nested
 
 def _only_membership_guard(ctx, pt, fn, node, key):
     g = C.cfg_of(fn)
-    deps = g.control_deps(node)
+    deps = {(b, lab) for (b, lab) in g.control_deps(node) if b is not node}      # a loop head depends on itself
     if not deps:
         return False
     for (b, lab) in deps:
